@@ -31,8 +31,8 @@ type HSPath struct {
 	// Refusal: index into the refusal replies (proxy-refusal).
 	Refusal int `json:"refusal,omitempty"`
 	// Upgrade only: bytes pre-buffered in the hijacked reader, buffer sizes.
-	PreBuffered int `json:"prebuffered,omitempty"`
-	ReadBuf     int `json:"rbuf,omitempty"`
+	PreBuffered int  `json:"prebuffered,omitempty"`
+	ReadBuf     int  `json:"rbuf,omitempty"`
 	HijackFails bool `json:"hijack_fails,omitempty"`
 	// Stall (fake-clock leg): stage at which the peer goes silent.
 	Stall string `json:"stall,omitempty"`
